@@ -328,12 +328,13 @@ def run(ctx):
                 a_, pol_ = natom(c[0], c[1])
                 if a_ == ("issome", ("next", S, 2)) and pol_ is False:
                     third_none = True
-            uses0 = sym.contains(r, lambda x: x == ("next", S, 0))
-            uses1 = sym.contains(r, lambda x: x == ("next", S, 1))
+            ch = lambda k: (lambda x: x == ("next", S, k) or x == ("nth", S, k))
+            uses0 = sym.contains(r, ch(0))
+            uses1 = sym.contains(r, ch(1))
             # order: file from char 0 (low bits), rank from char 1 (shifted)
             v = dict(r[4])["0"]
             shl = sym.subterms(v, lambda x: x[0] == "bin" and x[1] == "Shl")
-            rank_from_1 = bool(shl) and sym.contains(shl[0], lambda x: x == ("next", S, 1)) and not sym.contains(shl[0], lambda x: x == ("next", S, 0))
+            rank_from_1 = bool(shl) and sym.contains(shl[0], ch(1)) and not sym.contains(shl[0], ch(0))
             ctx.check(third_none and uses0 and uses1 and rank_from_1, "Square::from_str",
                       "Square::from_str does not read (file char, rank char) and then require end of input", loc(b),
                       sample={"Square::from_str": "file=char0, rank=char1, end"})
